@@ -420,6 +420,8 @@ def evaluate(ctx, cases):
                 elif op[0] == 'plot':
                     mop = '[plot]'
                     import matplotlib.pyplot as _plt
+                    held = copy.deepcopy((bm.thresholds, bm.burst_kwargs, bm.find_extrema_kwargs))
+                    held_df = None if bm.df_features is None else bm.df_features.copy(deep=True)
                     try:
                         implutil.quiet(bm.plot, xlim=(0.0, 2.0), plot_only_results=bool(opi % 2))
                     except ValueError:
@@ -428,6 +430,11 @@ def evaluate(ctx, cases):
                         outcome = 'done' if (bm.df_features is not None and bm.sig is not None) else 'raised'       # (a drawing error of its own is C20's subject)
                     finally:
                         _plt.close('all')
+                    # drawing is not a settings assignment: the next fit / edge recomputation must still run with the settings the user stored
+                    if repr((bm.thresholds, bm.burst_kwargs, bm.find_extrema_kwargs)) != repr(held):
+                        fail('plot modified the settings held by the object: %r -> %r' % (held[0], bm.thresholds))
+                    elif held_df is not None and not bm.df_features.equals(held_df):
+                        fail('plot modified the table held by the object')
                 elif op[0] == 'attrkey':
                     mop = '[attr,%s]' % op[1]
                     try:
